@@ -14,7 +14,7 @@ LEVEL_TEXT = ("Runtime monitoring of the real normalize / bg_correct / subimage 
               "numpy batch statistics, the generating sphere centre) and a purity/metadata monitor runs on every call.")
 LEVEL_NOTE = "Trusted: numpy/scipy arithmetic; the compiled Mie solver only as a generator of ring patterns for the centre finder."
 TECHNIQUE = "runtime monitoring: generated images through the real tools, defining-identity oracle + metadata/purity monitors; bounded-exhaustive crops and dead-pixel positions"
-RULE = ("norm/bg/detrend: random positive images of random shape (2..40, incl. non-square), layouts (x,y)/(z,x,y), value "
+RULE = ("norm/bg (incl. a background at other pixel coordinates, and at coordinates equal to rounding)/detrend: random positive images of random shape (2..40, incl. non-square), layouts (x,y)/(z,x,y), value "
         "ranges over 1e-6..1e6; sub: every (centre, even size) that fits on images <=8x8 + random incl. float centres; "
         "zero: every single dead pixel position on small images + sparse isolated sets; acc: all permutations of <=5 "
         "pushes + sampled orders of up to 12; center: single-sphere Mie holograms, 60-160 px, centre in the central 60%. "
